@@ -20,34 +20,54 @@ def flat(prefix, v, out):
         out[prefix] = json.dumps(v, sort_keys=True)
 
 
+def IsCy(content):
+    return content.startswith("Cy")
+
+
 def run(ctx):
-    cfg = ctx.pick("AnalysisDb_c11_q", "AnalysisDb_c11_t")
-    res = vlib.tlc("AnalysisDb", cfg, workers=ctx.pick(2, 4), timeout=ctx.pick(900, 2400),
-                   metadir=os.path.join(ctx.work, "tlc_" + cfg))
-    ctx.add_tlc(res)
-    if res.violated:
-        # a workspace that is NOT order sensitive by the spec's own predicate gives different results in two orders
-        ctx.violation("C11/model/%s" % res.violated, {"cfg": cfg, "trace": res.trace_text[:6000]})
-        return
+    # q / t: conflict-heavy acyclic alphabet (3 files); q2 / t2: require cycles of 2 and 3 files (plus files that
+    # require a cycle member) whose members contribute to the same class table / global / class field; a fourth
+    # file declares the class table
+    cfgs = ctx.pick(["AnalysisDb_c11_q", "AnalysisDb_c11_q2"], ["AnalysisDb_c11_t", "AnalysisDb_c11_t2"])
+    results = adb.run_tlc_many(ctx, cfgs, workers_each=ctx.pick(2, 4), timeout=ctx.pick(900, 2400))
     texts = None
     by_ws = {}
-    for tag, payload in res.json:
-        if tag == "TEXTS":
-            texts = payload
-        elif tag == "S":
-            init = payload["h"][0]["init"]
-            key = json.dumps(init, sort_keys=True)
-            by_ws.setdefault(key, []).append(payload)
+    generated = 0
+    for cfg, res in results:
+        ctx.add_tlc(res)
+        generated += res.generated
+        if res.violated:
+            # a workspace that is NOT order sensitive by the spec's own predicate gives different results in two orders
+            ctx.violation("C11/model/%s" % res.violated, {"cfg": cfg, "trace": res.trace_text[:6000]})
+            return
+        for tag, payload in res.json:
+            if tag == "TEXTS":
+                texts = payload
+            elif tag == "S":
+                init = payload["h"][0]["init"]
+                key = json.dumps(init, sort_keys=True)
+                by_ws.setdefault(key, []).append(payload)
     if not by_ws or texts is None:
-        raise vlib.ToolError("AnalysisDb/%s printed nothing" % cfg)
+        raise vlib.ToolError("AnalysisDb/%s printed nothing" % cfgs)
+    # the spec's structural predicate OrderSensitive must be EXACT: the outcomes over all batch orders differ
+    # exactly in the workspaces it names (Confluent, checked by TLC, is one direction; this is the other)
+    for key, recs in by_ws.items():
+        multi = len({json.dumps(r["step"]["obs"], sort_keys=True) for r in recs}) > 1
+        if multi != recs[0]["step"]["order_sensitive"]:
+            raise vlib.ToolError("AnalysisDb: OrderSensitive is %s but the batch orders give %s outcome(s) for %s"
+                                 % (recs[0]["step"]["order_sensitive"], "several" if multi else "one", key))
     vlib.build(["vh-analysis"])
     keys = sorted(by_ws)
     cases = []
     for i, key in enumerate(keys):
         init = json.loads(key)
         reg = sorted(p for p, v in init.items() if v != "-")
-        cases.append({"id": i, "requires": ["a", "b", "c"],
-                      "steps": [{"op": "batch", "files": [[adb.path_of(p), texts[init[p]]] for p in reg]}]})
+        step = {"op": "batch", "files": [[adb.path_of(p), texts[init[p]]] for p in reg]}
+        # the model's result for the file-id order (what a batch that sorts by file id must give)
+        ideal = [r for r in by_ws[key] if r["step"]["dev"] == []]
+        if ideal:
+            step["model"] = adb.model_of(ideal[0]["step"])
+        cases.append({"id": i, "requires": ["a", "b", "c", "d"], "steps": [step]})
     path = os.path.join(ctx.work, "cases.ndjson")
     with open(path, "w") as f:
         for c in cases:
@@ -64,6 +84,7 @@ def run(ctx):
         runs = list(ex.map(one, range(nproc)))
     found = {}
     sensitive_model = 0
+    cyc_sensitive = 0
     mism = 0
     for i, key in enumerate(keys):
         recs = by_ws[key]
@@ -92,37 +113,27 @@ def run(ctx):
                 sig = "C11/differs-between-processes/" + adb.gen_path(k)
                 found.setdefault(sig, []).append({"workspace": name, "observed": {k: sorted(map(str, vals))[:4]},
                                                   "model_says_order_sensitive": len(outcomes) > 1, "case": cases[i]})
-        # conformance with the model: the result of the file-id order (what a sorted batch must give)
-        ideal = [r for r in recs if r["step"]["dev"] == []]
-        if ideal and flats:
-            want = adb.model_of(ideal[0]["step"])
-            d = runs[0][i]["steps"][0]["dump"]
-            bad = []
-            for t, desc in want["desc"].items():
-                got = d["types"].get(t, {}).get("desc", "<no-type>") if t in d["types"] else "<no-type>"
-                got = "" if got is None else got
-                w = "<no-type>" if desc is None else desc
-                if got != w:
-                    bad.append(["desc/" + t, w, got])
-            for g, ps in want["globals"].items():
-                got = [x[0].split("@")[0] for x in d["globals"].get(g, {}).get("decls", [])]
-                if sorted(got) != sorted(ps):
-                    bad.append(["globals/" + g, ps, got])
-            for k, v in want["sizes"].items():
-                if d["sizes"].get(k) != v:
-                    bad.append(["sizes/" + k, v, d["sizes"].get(k)])
-            if bad:
-                mism += 1
-                ctx.divergence({"workspace": name, "model_vs_real": bad[:4]})
+        # conformance with the model: the result of the file-id order (what a sorted batch must give); compared by
+        # the harness (model_diff: descriptions, type locations, globals, members incl. the kept `Tab.x`, generic
+        # parameters, operators, module resolution, sizes)
+        bad = runs[0][i]["steps"][0].get("model") or []
+        if bad:
+            mism += 1
+            ctx.divergence({"workspace": name, "model_vs_real": bad[:4]})
+        if recs[0]["step"]["order_sensitive"] and any(IsCy(v) for v in init.values()):
+            cyc_sensitive += 1
         ctx.count(name, n=nproc, nontrivial=sum(1 for v in init.values() if v != "-") >= 2)
     ctx.validated(len(cases) * nproc)
     ctx.note("workspaces", len(cases))
     ctx.note("fresh_processes_per_workspace", nproc)
-    ctx.note("analysis_orders_explored_by_tlc", res.generated)
+    ctx.note("analysis_orders_explored_by_tlc", generated)
+    ctx.note("workspaces_where_the_order_of_cycle_members_decides_in_the_model", cyc_sensitive)
     ctx.note("workspaces_order_sensitive_in_the_model", sensitive_model)
     ctx.note("model_vs_real_mismatching_workspaces", mism)
     ctx.cov["exhaustive"] = True
-    ctx.rule("every workspace of <= 3 files over the cfg's content alphabet; TLC analyses the batch in every order "
+    ctx.rule("every workspace of <= 3 files over the cfg's content alphabet, and every workspace of 2- and 3-file require "
+             "cycles (+ a file requiring a cycle member, + the file declaring the class table) whose members assign the same "
+             "field / global / class field; TLC analyses the batch in every order "
              "(Confluent is a TLC invariant); each workspace goes through EmmyLuaAnalysis::update_files_by_uri in "
              "%d fresh processes, full dumps compared key by key; evaluations = workspace x process; non-trivial = "
              ">= 2 files" % nproc)
